@@ -144,6 +144,11 @@ func (n *LocalNode) FindSuccessor(key uint64) (chord.VNode, error) {
 	}
 	// find next in ring according to finger table
 	closest := n.closestPrecedingNode(key)
+	if closest.ID() == n.ID() {
+		// no finger precedes the key (finger table not caught up with the successor list yet):
+		// the successor is always closer to the key, asking ourselves again would never return
+		closest = succ
+	}
 	// contact possibly remote node
 	return closest.FindSuccessor(key)
 }
